@@ -87,6 +87,14 @@ def gen(rs: int, tier: str, index: int) -> dict:
             if "task" not in m:
                 m["task"] = 0
                 m["attempts"] = [{"steps": [0], "out": ["ret"]}]
+    rt = stream(rs, "c12rawtimeout")
+    for m in s["messages"]:
+        # a timeout label that cannot be read as a number (async tasks): the execution fails before the function is awaited; the
+        # dependencies opened for it are finalised like for any other failure, and the function must not run behind their back
+        ts = s["tasks"][m["task"]] if isinstance(m.get("task"), int) else {}
+        if m.get("kind", "valid") == "valid" and ts and not ts.get("sync") and m.get("timeout") is None and not m.get("dep_fail") \
+                and rt.random() < 0.05:
+            m["timeout_raw"] = rt.choice(["soon", "2s", "None", ""])
     from ._wcommon import maybe_cli_entry
     maybe_cli_entry(s, index, 7, 3)
     return s
@@ -155,10 +163,17 @@ def oracle(script: dict, run: Any) -> List[Violation]:
             if ak is not None and ack_type in ("when_executed", "when_saved") and c[0] > ak[0]:
                 out.append(Violation("C12/closed-after-ack", f"delivery {d}: dependency {c[5]['dep']} finalised at event {c[0]} after the {ack_type} acknowledgement at event {ak[0]}"))
                 break
+        fe = h.first(d, "fn_enter")
+        if closes and fe is not None and fe[0] > closes[0][0]:
+            out.append(Violation("C12/function-started-after-teardown", f"delivery {d}: the task function was entered at event {fe[0]} after dependency "
+                                 f"{closes[0][5]['dep']} had been finalised at event {closes[0][0]}", d=d))
+            continue
         # exception seen by the dependency
         want = None
         if propagate:
-            if df is not None and fx is None:
+            if m.get("timeout_raw") is not None and fx is None and df is None:
+                want = "ValueError"
+            elif df is not None and fx is None:
                 want = "SimError"
             elif fx is not None:
                 how = fx[5]["how"]
